@@ -139,3 +139,33 @@ func init() {
 		}
 	})
 }
+
+// minimal reflect shim: reflect.ValueOf(x).IsNil() for pointers, maps, slices, interfaces
+type reflVal struct{ x iface }
+
+func init() {
+	extraRegs = append(extraRegs, func() {
+		externals["reflect.ValueOf"] = func(fr *frame, args []value) value {
+			return reflVal{args[0].(iface)}
+		}
+		externals["(reflect.Value).IsNil"] = func(fr *frame, args []value) value {
+			rv, ok := args[0].(reflVal)
+			if !ok {
+				panic(unsupported("reflect.Value.IsNil on an unmodelled value"))
+			}
+			switch v := rv.x.v.(type) {
+			case nil:
+				return true
+			case *value:
+				return v == nil
+			case []value:
+				return v == nil
+			case map[value]value:
+				return v == nil
+			case *hashmap:
+				return v == nil
+			}
+			return false
+		}
+	})
+}
